@@ -21,7 +21,7 @@ type Rule struct {
 	// function's package and name): they are run for every property and their obligations filtered by tag, so that an
 	// obligation is never lost because the rule's static list does not name the property.
 	Wide bool
-	Run      func(c *Ctx) []Obligation
+	Run  func(c *Ctx) []Obligation
 }
 
 // Ctx is what a rule sees.
